@@ -4,6 +4,7 @@
 import Knx.Text
 import Knx.TunnelText
 import Knx.RouterText
+import Knx.Sock
 
 namespace Driver
 open Knx Knx.Text
@@ -37,6 +38,13 @@ def parseTail (t : String) : Option (List Byte) :=
   | _ => none
 
 /-- `dec <vis> <tail>` / `decc <vis> <tail>` / `enc <service…>` / `encc <cemi…>` … -/
+def parseArrivals (s : String) : Option (List Knx.Sock.Arrival) :=
+  if s == "-" then some [] else
+  (s.splitOn "|").mapM fun a =>
+    match a.splitOn ":" with
+    | [t, h] => do pure { t := ← t.toNat?, data := ← unhex h }
+    | _ => none
+
 def runWire (op : String) (args : List String) : Option String :=
   match op, args with
   | "dec", [v, t] => do
@@ -63,6 +71,24 @@ def runWire (op : String) (args : List String) : Option String :=
     match encBody v, sizeBody v with
     | some b, some sz => pure ("ok " ++ toString sz ++ " " ++ hex b)
     | _, _ => pure "nopack"
+  | "tcp", [chunks] => do
+    let cs ← (chunks.splitOn "|").mapM unhex
+    let (rx, out) := Knx.Sock.feedAll {} cs
+    let tail := if rx.dead then "closed" else "open"
+    pure (" ; ".intercalate (out.map (fun v => " ".intercalate (service v)) ++ [tail]))
+  | "udp", [dgrams] => do
+    let ds ← (dgrams.splitOn "|").mapM unhex
+    let out := Knx.Sock.udpAll (List.replicate 1024 0) ds
+    pure (" ; ".intercalate (out.map (fun v => " ".intercalate (service v)) ++ ["end"]))
+  | "desc", [t, sc] => do
+    let arr ← parseArrivals sc
+    match Knx.Sock.describe (← t.toNat?) arr with
+    | some v => pure (" ".intercalate (service v))
+    | none => pure "none"
+  | "disc", [t, sc] => do
+    let arr ← parseArrivals sc
+    let out := Knx.Sock.discover (← t.toNat?) arr
+    pure (" ; ".intercalate (out.map (fun v => " ".intercalate (service v)) ++ ["end"]))
   | _, _ => none
 
 def runLine (line : String) : String :=
